@@ -222,7 +222,7 @@ fn script(runs: Vec<Vec<Act>>, cyclic: bool) -> Script {
 }
 
 fn prog(name: String, scripts: Vec<Script>, ops: Vec<Op>, init: [[Option<u32>; NT]; NE]) -> Program {
-    Program { name, scripts, ops, fuel: 40, init_comps: init, frame_order: 0 }
+    Program { name, scripts, ops, fuel: 40, init_comps: init, frame_order: 0, app_reactors: vec![], wr_start: vec![] }
 }
 
 const ALL_COMPS: [[Option<u32>; NT]; NE] = [[Some(0), Some(0)], [Some(0), Some(0)], [Some(0), Some(0)], [Some(0), Some(0)]];
